@@ -518,7 +518,7 @@ pub fn run(which: &str, tier: Tier, rep: &mut Report) -> (String, String) {
     }
     jobs.sort_by_key(|j| std::cmp::Reverse(j.1));
     let r = par_each(&jobs, n_threads(tier), |&(kind, n, first), r| {
-        let depth = n + extra;
+        let depth = (n + extra).min(tier.pick(8, 9, 4));
         match kind {
             0 => {
                 let ops = consumer_ops();
@@ -547,7 +547,7 @@ pub fn run(which: &str, tier: Tier, rep: &mut Report) -> (String, String) {
     rep.violations_total = rep.violations.len() as u64;
     (
         "state = an operation history executed from scratch (stateless exploration by re-execution) on ArrayConsumer<Tracked,N> (ops next, next_back, drop, assert_is_empty, clone -> second live object, start from empty()) / ArrayBuilder<Tracked,N> (push, build, drop, clone); after every step as_slice/len/is_full are compared with a deque/vec model and every live element is modified through as_mut_slice; at the end of every history the thread-local ledger must show each element handed out or dropped exactly once (at most once on panic paths), in original order with the expected payload; map_!/from_fn_! with a closure panicking at each element k; distinct_nontrivial counted conservatively as half of the complete histories".into(),
-        format!("N in 0..={maxn}, history depth N+{extra}, at most 2 live objects; every enabled sequence"),
+        format!("N in 0..={maxn}, history depth min(N+{extra}, {}), at most 2 live objects; every enabled sequence", tier.pick(8, 9, 4)),
     )
 }
 
